@@ -255,6 +255,14 @@ def run_serve_stream(S: Any, writes_may_fail: bool = False, reader_may_fail: boo
 
     H["AB.release"] = ab_release
 
+    def release_fn_call(S, rf):
+        # the region's release function called directly (input rejected before an AnnotatedBatch owned it)
+        bump("n_released")
+        if S.choose(2) == 1:
+            raise_(ValueError, "No allocation at offset")  # shm.free may raise
+
+    H["ReleaseFn.__call__"] = release_fn_call
+
     def collector(S, schema, prior_data_bytes=0, server_id=None, producer_mode=False):
         return SObj(None, kind="Out", finished=S.bool("out_finished"), total_data_bytes=S.int("out_bytes"), emit_client_log_message=SObj(None, kind="EmitFn"))
 
